@@ -3,6 +3,7 @@ package main
 import (
 	"fmt"
 	"go/token"
+	"go/types"
 	"regexp"
 	"sort"
 	"strings"
@@ -249,6 +250,7 @@ func ruleParseOverflowGuards(w *World, r *Report, rule string) {
 			}
 		}
 		r.Check(ok1, rule, "ParseDuration:overflow-guard", w.pos(pd.Pos()), "rejects x > MaxInt32/unit before multiplying", "ParseDuration does not reject x > MaxInt32/unit before computing x*unit: a product of 2^32 or more wraps to a small positive value and a retention string far beyond 32 bits is accepted")
+		ruleParsedNumberNotNarrowed(w, r, rule)
 	} else {
 		r.Undecided(rule, "ParseDuration", "-", "not found")
 	}
@@ -821,4 +823,50 @@ func ruleListStringJoin(w *World, r *Report, rule string) {
 		detail = e.err.Error()
 	}
 	r.Check(ok, rule, "ArchiveInfoList.String:join", w.pos(f.Pos()), "a list of three prints as e0,e1,e2", "ArchiveInfoList.String of a three-archive list writes ["+detail+"] instead of e0 \",\" e1 \",\" e2: the printed retention list is not what ParseArchiveInfoList accepts (or parses to another list)")
+}
+
+// intWidth: bits of a basic integer type on the analysed 64-bit configurations (int/uint/uintptr = 64; the 32-bit
+// configuration of the thorough tier only makes them narrower, which cannot hide a narrowing to a fixed-width type).
+func intWidth(b *types.Basic) int {
+	switch b.Kind() {
+	case types.Int8, types.Uint8:
+		return 8
+	case types.Int16, types.Uint16:
+		return 16
+	case types.Int32, types.Uint32, types.UntypedRune:
+		return 32
+	case types.Int64, types.Uint64, types.Int, types.Uint, types.Uintptr, types.UntypedInt:
+		return 64
+	}
+	return 0
+}
+
+// ruleParsedNumberNotNarrowed: the number leadingInt returns reaches ParseDuration's overflow guards in its own width.
+func ruleParsedNumberNotNarrowed(w *World, r *Report, rule string) {
+	pd := fn(w.Lib, "ParseDuration")
+	if pd == nil {
+		return
+	}
+	// the guards judge the number itself: it is not narrowed on its way from leadingInt to them
+	bad := ""
+	for _, f := range []*ssa.Function{pd, fn(w.Lib, "ParseArchiveInfo")} {
+		if f == nil {
+			continue
+		}
+		eachInstr(f, func(in ssa.Instruction) {
+			cv, ok := in.(*ssa.Convert)
+			if !ok {
+				return
+			}
+			from, ok1 := cv.X.Type().Underlying().(*types.Basic)
+			to, ok2 := cv.Type().Underlying().(*types.Basic)
+			if !ok1 || !ok2 || from.Info()&types.IsInteger == 0 || to.Info()&types.IsInteger == 0 {
+				return
+			}
+			if intWidth(from) > intWidth(to) && strings.Contains(newExprCtx(w).expr(cv.X), "leadingInt(") && bad == "" {
+				bad = "the parsed number is narrowed from " + from.Name() + " to " + to.Name() + " at " + w.instrPos(cv) + " before it is range-checked"
+			}
+		})
+	}
+	r.Check(bad == "", rule, "ParseDuration:no-narrowing", w.pos(pd.Pos()), "the number leadingInt returns reaches the overflow guards in its own width", "ParseDuration: "+bad+": a number of 2^32 or more keeps only its low bits, passes the guards and a retention far beyond 32 bits is accepted as a small one")
 }
